@@ -19,6 +19,9 @@ type connStatus struct {
 	*sync.RWMutex
 	cond    *sync.Cond
 	current connStatusValue
+	// reconnects counts the transitions into connStatusReconnecting. The status value alone cannot tell a
+	// waiter that an outage began and ended while it was not looking; the counter can.
+	reconnects uint64
 }
 
 func newConnState() *connStatus {
@@ -65,8 +68,22 @@ func (e *connStatus) CompareAndSwapNot(old, new connStatusValue) (swapped bool) 
 	return true
 }
 
+// Reconnects returns the number of outages (transitions into connStatusReconnecting) seen so far.
+func (e *connStatus) Reconnects() uint64 {
+	e.RLock()
+	defer e.RUnlock()
+	return e.reconnects
+}
+
+func (e *connStatus) ReconnectsWithoutLock() uint64 {
+	return e.reconnects
+}
+
 func (e *connStatus) SwapWithoutLock(state connStatusValue) (old connStatusValue) {
 	old = e.current
+	if state == connStatusReconnecting && old != connStatusReconnecting {
+		e.reconnects++
+	}
 	e.current = state
 	e.cond.Broadcast()
 	return
